@@ -172,7 +172,7 @@ EtagAt(s, p) ==
       q == IF w THEN p + 2 ELSE p
       j == IF q <= Len(s) /\ s[q] = DQ THEN QuoteEnd(s, q + 1) ELSE 0
   IN IF j > 0 THEN LET quoted == SubSeq(s, q + 1, j - 1) IN
-                   [weak |-> w, star |-> FALSE, tag |-> IF quoted # <<>> THEN quoted ELSE NONE, nxt |-> SepEnd(s, j + 1)]
+                   [weak |-> w, star |-> FALSE, tag |-> quoted, nxt |-> SepEnd(s, j + 1)]
      ELSE LET k == RawEnd(s, q) raw == SubSeq(s, q, k - 1) IN
           [weak |-> w, star |-> raw = <<STAR>>, tag |-> raw, nxt |-> SepEnd(s, k)]
 RECURSIVE EtagLoop(_, _, _, _)
